@@ -590,35 +590,40 @@ fn key(s: &str) -> Vec<u8> {
 }
 
 /// a random classic section: subsections (any splitting, also empty and overlapping ones) of in-use and
-/// free entries, and a trailer dictionary
-fn gen_subs(rng: &mut Rng) -> Vec<Sub> {
+/// free entries. `wide = false`: what a conforming writer can emit (offsets of at most ten digits,
+/// generations up to 65535, object numbers within the limits of Annex C); `wide = true`: also numbers
+/// that overflow the fixed fields or the implementation limits (outside the property's domain).
+fn gen_subs(rng: &mut Rng, wide: bool) -> Vec<Sub> {
     let nsub = rng.usize(5);
     let mut subs = vec![];
     for _ in 0..nsub {
         let first = match rng.below(8) {
-            0 => rng.below(1 << 32) as u32,
-            1 => u32::MAX,
+            0 if wide => rng.below(1 << 32) as u32,
+            1 if wide => u32::MAX,
+            0 => rng.below(8_388_607) as u32,
             _ => rng.below(30) as u32,
         };
         let len = match rng.below(6) { 0 => 0, 1 => 1, _ => rng.usize(7) };
-        let es: Vec<XRef> = (0..len).map(|_| gen_classic_entry(rng)).collect();
+        let es: Vec<XRef> = (0..len).map(|_| gen_classic_entry(rng, wide)).collect();
         subs.push((first, es));
     }
     subs
 }
 
-fn gen_classic_entry(rng: &mut Rng) -> XRef {
+fn gen_classic_entry(rng: &mut Rng, wide: bool) -> XRef {
     let a = match rng.below(10) {
         0 => 0,
         1 => 9_999_999_999,
-        2 => rng.next(),                     // beyond ten digits: the field grows, still three tokens
-        3 => u64::MAX,
+        2 if wide => rng.next(),                     // beyond ten digits: the field grows, still three tokens
+        3 if wide => u64::MAX,
+        2 => rng.below(10_000_000_000),
         _ => rng.below(100_000),
     };
     let g = match rng.below(10) {
         0 => 65535,
-        1 => 99999,
-        2 => rng.next(),
+        1 if wide => 99999,
+        2 if wide => rng.next(),
+        1 => rng.below(65536),
         3 | 4 => rng.below(4),
         _ => 0,
     };
@@ -712,8 +717,8 @@ struct TableCase {
     sec: Section,
 }
 
-fn gen_table_case(rng: &mut Rng) -> TableCase {
-    let subs = gen_subs(rng);
+fn gen_table_case(rng: &mut Rng, wide: bool) -> TableCase {
+    let subs = gen_subs(rng, wide);
     let size = rng.below(40);
     let prev = if rng.chance(1, 2) { Some(rng.below(100_000)) } else { None };
     let marker = 1000 + rng.below(1000);
@@ -726,16 +731,19 @@ fn gen_table_case(rng: &mut Rng) -> TableCase {
     TableCase { subs, trailer, tail, tape, sec }
 }
 
-fn table_streams(driver: &Driver, seed: u64, n: u64, only: Option<u64>) -> (Vec<Stream>, Oracle) {
-    let mut st_w = Stream::new("c02.table.writer", true);
-    let mut st_r = Stream::new("c02.table", true);
-    let mut st_a = Stream::new("c02.table.at", true);
-    let mut or = Oracle::new("c02.table.readsback");
+/// `wide = false`: conforming sections (in-domain streams `c02.table.writer`, `c02.table`, `c02.table.at` and the
+/// oracle); `wide = true`: the same with numbers beyond the format's fields (`c02.table.wide.*`, drift only)
+fn table_streams(driver: &Driver, seed: u64, n: u64, only: Option<u64>, wide: bool) -> (Vec<Stream>, Oracle) {
+    let base = if wide { "c02.table.wide" } else { "c02.table" };
+    let mut st_w = Stream::new(&format!("{}.writer", base), !wide);
+    let mut st_r = Stream::new(base, !wide);
+    let mut st_a = Stream::new(&format!("{}.at", base), !wide);
+    let mut or = Oracle::new(if wide { "c02.table.wide.readsback" } else { "c02.table.readsback" });
     let (mut rq_w, mut im_w, mut rq_r, mut im_r, mut rq_a, mut im_a) = (vec![], vec![], vec![], vec![], vec![], vec![]);
     let cases: Vec<u64> = match only { Some(c) => vec![c], None => (0..n).collect() };
     for case in cases {
-        let mut rng = Rng::derive(seed, "c02.table", case);
-        let c = gen_table_case(&mut rng);
+        let mut rng = Rng::derive(seed, base, case);
+        let c = gen_table_case(&mut rng, wide);
         let nent: usize = c.subs.iter().map(|s| s.1.len()).sum();
         st_r.count(&format!("subsections={}", c.subs.len()));
         st_r.count(&format!("entries={}", if nent > 9 { "10+".to_string() } else { nent.to_string() }));
@@ -759,7 +767,7 @@ fn table_streams(driver: &Driver, seed: u64, n: u64, only: Option<u64>) -> (Vec<
         // oracle: the reader returns what the writer was given
         let expect = format!("ok {} {}", show_subs(&c.subs), show_val(&c.trailer));
         or.case(&rq_r[rq_r.len() - 1], nent > 0, || json!({"section": show_subs(&c.subs), "text": String::from_utf8_lossy(&c.sec.bytes)}));
-        if imp != expect {
+        if imp != expect && !wide {
             or.fail("classic-table-misread", &format!("read_xref_and_trailer_at returned {} for a conforming section that holds {}", trunc(&imp), trunc(&expect)),
                 json!({"stream": "c02.table", "seed": seed, "case": case, "section_hex": crate::driver::hex(&c.sec.bytes), "expected": expect, "got": imp}));
         }
@@ -846,7 +854,8 @@ fn table_outside(driver: &Driver, seed: u64, n: u64) -> Stream {
     let mut imps = vec![];
     for case in 0..n {
         let mut rng = Rng::derive(seed, "c02.table.outside", case);
-        let c = gen_table_case(&mut rng);
+        let wide = rng.chance(1, 4);
+        let c = gen_table_case(&mut rng, wide);
         let (mut b, what) = corrupt(&mut rng, &c.sec.bytes);
         if rng.chance(1, 4) { b = corrupt(&mut rng, &b).0; }
         st.count(&format!("corruption={}", what));
@@ -970,7 +979,7 @@ fn gen_walk_file(rng: &mut Rng, breakage: Option<u64>) -> WalkFile {
     WalkFile { bytes: out, start, expect_entries, newest_marker: marker, nsec: nrev, desc }
 }
 
-fn real_walk(bytes: &[u8], start: usize) -> (String, Option<u64>) {
+fn real_walk_inner(bytes: &[u8], start: usize) -> (String, Option<u64>) {
     use pdf::backend::Backend;
     let r = catch_unwind(AssertUnwindSafe(|| {
         let res = TestResolve::new(&vec![], false);
@@ -984,6 +993,30 @@ fn real_walk(bytes: &[u8], start: usize) -> (String, Option<u64>) {
         }
     }));
     r.unwrap_or_else(|_| ("panic".into(), None))
+}
+
+static WALK_HUNG: std::sync::atomic::AtomicBool = std::sync::atomic::AtomicBool::new(false);
+
+/// `read_xref_table_and_trailer` under a watchdog: a walk that does not end (a `/Prev` loop that is not
+/// detected) answers `hang`; after the first one the remaining cases of the run are not started any more
+/// (`hang-skipped`), the stuck thread dies with the process
+fn real_walk(bytes: &[u8], start: usize) -> (String, Option<u64>) {
+    use std::sync::atomic::Ordering;
+    if WALK_HUNG.load(Ordering::SeqCst) {
+        return ("hang-skipped".into(), None);
+    }
+    let (tx, rx) = std::sync::mpsc::channel();
+    let data = bytes.to_vec();
+    std::thread::spawn(move || {
+        let _ = tx.send(real_walk_inner(&data, start));
+    });
+    match rx.recv_timeout(std::time::Duration::from_secs(10)) {
+        Ok(r) => r,
+        Err(_) => {
+            WALK_HUNG.store(true, Ordering::SeqCst);
+            ("hang".into(), None)
+        }
+    }
 }
 
 fn walk_streams(driver: &Driver, seed: u64, n: u64, only: Option<u64>) -> (Stream, Oracle) {
@@ -1131,7 +1164,7 @@ pub fn run(driver: &Driver, seed: u64, thorough: bool, replay: Option<&serde_jso
         let case = r["case"].as_u64().unwrap_or(0);
         match r["stream"].as_str() {
             Some("c02.table") => {
-                let (sts, or) = table_streams(driver, seed, 0, Some(case));
+                let (sts, or) = table_streams(driver, seed, 0, Some(case), false);
                 rep.streams.extend(sts);
                 rep.oracles.push(or);
             }
@@ -1156,9 +1189,11 @@ pub fn run(driver: &Driver, seed: u64, thorough: bool, replay: Option<&serde_jso
     let (st, or) = file_level(driver, seed, 0, if thorough { 50_000 } else { 1500 });
     rep.streams.push(st);
     rep.oracles.push(or);
-    let (sts, or) = table_streams(driver, seed, if thorough { 100_000 } else { 2500 }, None);
+    let (sts, or) = table_streams(driver, seed, if thorough { 100_000 } else { 2500 }, None, false);
     rep.streams.extend(sts);
     rep.oracles.push(or);
+    let (sts, _) = table_streams(driver, seed, if thorough { 30_000 } else { 800 }, None, true);
+    rep.streams.extend(sts);
     rep.streams.push(table_tokens(driver, if thorough { 6 } else { 5 }));
     rep.streams.push(table_outside(driver, seed, if thorough { 100_000 } else { 3000 }));
     let (st, or) = walk_streams(driver, seed, if thorough { 50_000 } else { 1500 }, None);
